@@ -55,6 +55,7 @@ def _is_self_field_path(t, field):
 
 def run(ctx):
     prog = ctx.prog
+    shape_wrappers(ctx, prog)
     ctx.rule('R11.1', 'each inverse method = remove_collisions(inner.same_method(same args)); the other trait methods return the inner result unchanged')
     ctx.rule('R11.2', 'the filter pushes exactly on the false edge of RobotBody::collides(body, &sol, kinematics) for the same sol, sequentially, without re-ordering')
     ctx.rule('R11.3', 'kinematic stack = Tool{Base{OPWKinematics::new_with_constraints(params, constraints), base}, tool}; BaseBody.base_pose from the same base transform; both constructors agree')
@@ -323,3 +324,35 @@ def _positioned(ctx, prog):
             tr = strip(t[3])
             tool_ok = isinstance(tr, tuple) and tr[0] == 'idx' and util.const_val(tr[2]) == 5
     ctx.check(tool_ok, 'R11.4', 'positioned_robot/tool', b.where(0), b.path, 'tool is not placed at link pose J6')
+
+
+SHAPE_WRAPPERS = ('collides', 'near', 'collision_details', 'non_colliding_offsets')
+
+
+def shape_wrappers(ctx, prog):
+    """R11.5: the collision queries of the robot with shape are its body's queries of the same name on its own kinematics:
+    `self.body.<name>(joints.., self.kinematics.as_ref(), ..)` with the caller's arguments in order, returned as it is
+    (the planners, the IK filter and the neighbour enumeration all ask through these four methods)."""
+    ctx.rule('R11.5', 'KinematicsWithShape::{collides, near, collision_details, non_colliding_offsets} return RobotBody::<same name>(self.body; the caller\'s arguments in order; self.kinematics)')
+    n = 0
+    for name in SHAPE_WRAPPERS:
+        bs = [b for p, b in prog.bodies.items() if p.endswith('kinematics_with_shape::KinematicsWithShape::' + name)]
+        if len(bs) != 1:
+            continue
+        b = bs[0]
+        ctx.fn(b)
+        n += 1
+        rv = [strip(x[0]) for x in b.return_values()]
+        ok = False
+        found = [show(x, maxdepth=4) for x in rv]
+        if len(rv) == 1 and isinstance(rv[0], tuple) and rv[0][0] == 'call' and rv[0][1].endswith('RobotBody::' + name):
+            args = [strip(a) for a in rv[0][2:]]
+            recv_ok = util.is_self_field(args[0], 'body')
+            rest = args[1:]
+            kin = [k for k, a in enumerate(rest) if mir.contains(a, lambda y: y[0] == 'fld' and y[2] == 'kinematics' and util.is_param(strip(y[1]), 1))]
+            params = [util.param_index(a) for k, a in enumerate(rest) if k not in kin]
+            ok = recv_ok and len(kin) == 1 and params == list(range(2, 2 + len(params))) and len(params) == b.arg_count - 1
+        ctx.check(ok, 'R11.5', 'KinematicsWithShape::' + name, b.where(0), b.path,
+                  'the query must be answered by RobotBody::%s of the robot\'s own body and kinematics with the caller\'s arguments unchanged and in order, and returned as it is' % name,
+                  found=found, detail='-> RobotBody::' + name)
+    ctx.floor('R11.5 shape queries', n, 4)
